@@ -15,7 +15,7 @@ RULE = (
     "non-trivial subsequence: proper and non-empty."
 )
 ASSUMPTIONS = ["reference run counter refmodel/graphs.py:lost_runs_mask"]
-BUDGET = {"quick": 200, "thorough": 1800}
+BUDGET = {"quick": 600, "thorough": 1800}
 
 
 def plan(tier, seed):
